@@ -77,7 +77,12 @@ def run(P, C, tier):
                 C.ob("R2", "deletion-failure-propagates:" + name, re_ is not None, sd.loc(bi), "a failed application of received deletions aborts the day's exchange")
     except mir.MissingAnchor as e:
         C.anchor_missing("R2", "synchronise_day", e)
-    # ---- R3
+    apply_deletions(P, C, "R3")
+
+
+def apply_deletions(P, C, R):
+    """the application of received deletion records (shared with C03-R7): identity-addressed DELETE, record stored and days marked on every path"""
+    from rules.rights import enclosing_loop_header
     for fn, table, keyre in (("node::NodeDeletionEntry::delete_all", "_node", r"room_id\s*=\s*\?\s+AND\s+id\s*=\s*\?"), ("edge::EdgeDeletionEntry::delete_all", "_edge", r"src\s*=\s*\?")):
         try:
             b = P.body(fn)
@@ -102,6 +107,27 @@ def run(P, C, tier):
                 same_iter = h1 is not None and h1 == h2
                 for bi, t in ex + wr:
                     same_iter = same_iter and mir.result_edges(b, bi) is not None
-            C.ob("R3", "apply:" + fn.split("::")[-2], ok and same_iter, b.loc(), "DELETE FROM %s addressed by exactly the identity columns of the record (no version/date condition), and the record written, in the same iteration with errors propagated: %s/%s" % (table, ok, same_iter))
+            if ex and wr and same_iter:
+                # every path of an iteration that goes on (next iteration or normal return) after the DELETE has been
+                # issued stores the record and marks the day: an iteration that skips them (e.g. when no local row was
+                # removed) leaves a peer that never held the row without the record, so it can neither refuse the row
+                # later nor relay the deletion
+                hdr = enclosing_loop_header(b, ex[0][0])
+                marks = [bi for bi, t in b.calls_to(r"DailyMutations::set_need_update$")]
+                ok_exits = [x for x in b.exits()]
+                # exits reached through an Err propagation are not acknowledgements: cut at the `?` error edges
+                err_blocks = set()
+                for bi, t in ex + wr:
+                    re_ = mir.result_edges(b, bi)
+                    if re_ and re_.get("err") is not None:
+                        err_blocks.add(re_["err"])
+                def skips(through):
+                    r = b.reach_after(ex[0][0], avoid_blocks=set(through) | err_blocks)
+                    return (hdr in r) or any(x in r for x in ok_exits)
+                wrote = not skips([w for w, _ in wr])
+                marked = bool(marks) and not skips(marks)
+                C.ob(R, "record-on-every-path:" + fn.split("::")[-2], wrote and marked, b.loc(ex[0][0]),
+                     "after the DELETE every path to the next iteration or the normal return stores the deletion record (%s) and marks the day for recomputation (%s)" % (wrote, marked))
+            C.ob(R, "apply:" + fn.split("::")[-2], ok and same_iter, b.loc(), "DELETE FROM %s addressed by exactly the identity columns of the record (no version/date condition), and the record written, in the same iteration with errors propagated: %s/%s" % (table, ok, same_iter))
         except mir.MissingAnchor as e:
-            C.anchor_missing("R3", fn, e)
+            C.anchor_missing(R, fn, e)
